@@ -475,5 +475,135 @@ pub proof fn thm_honest_dkg<C: Ciphersuite>(ids: Set<Identifier<C>>, n: u16, t: 
     }
 }
 
+// ===================================================================================================
+// C09 (i), strong form: NO assumption on the peers.  Whatever round-one packages and round-two shares a participant is handed, if part3
+// completes (no guard fires, every share passes its check) on commitments of one common length and the participant's own round-2 secret
+// package is what part2 made (own share matches own commitment), then its verifying share EQUALS its entry in the public key package.
+
+// a run of accepted shares: every share from `from` on passed the VSS check
+//@serves C09 C07
+pub proof fn lemma_first_share_err_none_all<C: Ciphersuite>(keys: Seq<Identifier<C>>, r1: R1Map<C>, r2: R2Map<C>, own: Identifier<C>, from: int)
+    requires 0 <= from, spec_first_share_err::<C>(keys, r1, r2, own, from) is None
+    ensures forall|k: int| from <= k < keys.len() ==> spec_share_err::<C>(own, r2[#[trigger] keys[k]].signing_share.0.0, r1[keys[k]].commitment.0@, keys[k]) is None
+    decreases keys.len() - from
+{
+    if from < keys.len() { lemma_first_share_err_none_all::<C>(keys, r1, r2, own, from + 1); }
+}
+
+// the premises: part3 ran to the post_dkg hook on (s2, r1, r2) and produced (kp, pk); the own state is consistent; equal commitment lengths
+pub open spec fn part3_completed<C: Ciphersuite>(kp: KeyPackage<C>, pk: PublicKeyPackage<C>, s2: R2Sec<C>, r1: R1Map<C>, r2: R2Map<C>) -> bool {
+    r1.dom().finite() && r2.dom().finite()
+    && spec_part3_guard_err::<C>(s2, r1, r2) is None
+    && spec_first_share_err::<C>(sorted_seq(r2.dom()), r1, r2, s2.identifier, 0) is None
+    && spec_part3_pre::<C>(kp, pk, s2, r1, r2)
+    // own share matches own commitment (part2 returns f(own id) and the commitment G*f of the part1 state: spec_part2_ok + spec_part1)
+    && gmul::<C>(s2.secret_share.0) == spec_vss::<C>(comm_vals::<C>(s2.commitment.0@), s2.identifier.0.0, s1::<C>())
+    // all commitments of the run have the length of the own one (part2 enforces min_signers entries on the set IT is given)
+    && forall|id: Identifier<C>| r1.contains_key(id) ==> (#[trigger] r1[id]).commitment.0@.len() == s2.commitment.0@.len()
+}
+
+// evaluate_vss of the summed commitment at the own identifier is G * (sum of the accepted shares + own share)
+//@serves C09 C07
+pub proof fn lemma_part3_own_entry<C: Ciphersuite>(kp: KeyPackage<C>, pk: PublicKeyPackage<C>, s2: R2Sec<C>, r1: R1Map<C>, r2: R2Map<C>)
+    requires part3_completed::<C>(kp, pk, s2, r1, r2)
+    ensures spec_vss::<C>(comm_vals::<C>(spec_dkg_group_commitment::<C>(spec_part3_commitments::<C>(s2, r1))->Ok_0), s2.identifier.0.0, s1::<C>())
+            == gmul::<C>(kp.signing_share.0.0)
+{
+    let own = s2.identifier;
+    let m = spec_part3_commitments::<C>(s2, r1);
+    lemma_part3_same_keys::<C>(r1, r2);
+    let keys = sorted_seq(r2.dom());
+    lemma_sorted_exists::<C>(r2.dom());
+    assert(m.dom() =~= r1.dom().insert(own));
+    lemma_sorted_exists::<C>(m.dom());
+    let srt = sorted_seq(m.dom());
+    let n = srt.len() as int;
+    let cs = spec_dkg_commitment_list::<C>(m);
+    let len = s2.commitment.0@.len();
+    assert(m.dom().contains(own));
+    assert(srt.to_set().contains(own));
+    assert(n > 0);
+    // every commitment of the run has `len` entries
+    assert forall|j: int| 0 <= j < n implies (#[trigger] cs[j]).len() == len by {
+        assert(srt.contains(srt[j])); assert(m.dom().contains(srt[j]));
+        if srt[j] != own { assert(r1.contains_key(srt[j])); }
+    }
+    assert(cs[0].len() == len);
+    let gc = spec_dkg_group_commitment::<C>(m)->Ok_0;
+    assert(comm_vals::<C>(gc) =~= colsums::<C>(cs, len, n));
+    // every commitment verifies the scalar its owner contributed at `own`
+    let g = |id: Identifier<C>| if id == own { s2.secret_share.0 } else { r2[id].signing_share.0.0 };
+    lemma_first_share_err_none_all::<C>(keys, r1, r2, own, 0);
+    assert forall|j: int| 0 <= j < n implies gmul::<C>(g(#[trigger] srt[j])) == spec_vss::<C>(comm_vals::<C>(cs[j]), own.0.0, s1::<C>()) by {
+        assert(srt.contains(srt[j])); assert(m.dom().contains(srt[j]));
+        if srt[j] != own {
+            assert(r2.dom().contains(srt[j])); assert(keys.to_set().contains(srt[j]));
+            let w = choose|w: int| 0 <= w < keys.len() && keys[w] == srt[j];
+            assert(spec_share_err::<C>(own, r2[keys[w]].signing_share.0.0, r1[keys[w]].commitment.0@, keys[w]) is None);
+        }
+    }
+    lemma_vss_colsums::<C>(cs, len, own.0.0, s1::<C>(), n);
+    lemma_vss_sum_shares::<C>(cs, srt, g, own.0.0, n);
+    assert(srt.take(n) =~= srt);
+    // the order part3 adds in: (accepted shares, ascending senders) + own share  ==  sum over senders ++ [own]  ==  sum in ascending order over all
+    let zero_kp = KeyPackage::<C> { header: default_header::<C>(), identifier: own, signing_share: SigningShare(SerializableScalar(s0::<C>())),
+        verifying_share: VerifyingShare(SerializableElement(e0::<C>())), verifying_key: VerifyingKey::<C> { element: SerializableElement(e0::<C>()) }, min_signers: s2.min_signers };
+    lemma_refresh_new_share_as_id_sum::<C>(s2, r2, zero_kp, g);
+    let p = keys.push(own);
+    let sum = sadd::<C>(spec_r2_sum::<C>(keys, r2, keys.len() as int), s2.secret_share.0);
+    FF::<C>::ax_add_zero(sum); FF::<C>::ax_add_zero(id_sum::<C>(p, g));
+    lemma_id_sum_perm::<C>(srt, p, g);
+    assert(kp.signing_share.0.0 == sum);
+}
+
+// C09 (i): entry of the public key package == verifying share of the key package, for EVERY completed part3 on equal-length commitments,
+// honest peers or not (the clause thm_part3_internal_consistency could not state)
+//@serves C09 C07
+pub proof fn thm_part3_entry_matches<C: Ciphersuite>(kp: KeyPackage<C>, pk: PublicKeyPackage<C>, s2: R2Sec<C>, r1: R1Map<C>, r2: R2Map<C>)
+    requires part3_completed::<C>(kp, pk, s2, r1, r2)
+    ensures pk.verifying_shares@.contains_key(s2.identifier), pk.verifying_shares@[s2.identifier] == kp.verifying_share,
+        kp.verifying_share.0.0 == gmul::<C>(kp.signing_share.0.0), kp.verifying_key == pk.verifying_key, kp.identifier == s2.identifier
+{
+    lemma_part3_own_entry::<C>(kp, pk, s2, r1, r2);
+    assert(spec_part3_commitments::<C>(s2, r1).dom().contains(s2.identifier));
+}
+
+// the own-state premise of part3_completed is what the part1 and part2 contracts give: a round-2 secret package made by part2 from a part1 state
+//@serves C09 C07
+pub proof fn lemma_own_state_consistent<C: Ciphersuite>(sp: R1Sec<C>, pkg: R1Pkg<C>, id: Identifier<C>, n: u16, t: u16, stream: spec_fn(nat) -> u8, pos: nat,
+        s2: R2Sec<C>, out2: R2Map<C>, r1: R1Map<C>)
+    requires t >= 1, spec_part1::<C>(Ok::<(R1Sec<C>, R1Pkg<C>), Error<C>>((sp, pkg)), id, n, t, stream, pos), spec_part2_ok::<C>(s2, out2, sp, r1)
+    ensures gmul::<C>(s2.secret_share.0) == spec_vss::<C>(comm_vals::<C>(s2.commitment.0@), s2.identifier.0.0, s1::<C>()),
+        s2.commitment.0@.len() == t, s2.identifier == id, s2.min_signers == t
+{
+    lemma_part1_ok_facts::<C>(sp, pkg, id, n, t, stream, pos);
+    let a = sp_coeffs::<C>(sp);
+    lemma_vss_complete::<C>(a, id.0.0, s1::<C>());
+    lemma_one_mul::<AL<C>>(poly::<AL<C>>(a, id.0.0));
+    assert(spec_commitment::<C>(a).len() == a.len());
+}
+
+// C09 ("... and can sign together"): if the summed commitment of a completed part3 is the commitment G*a of a coefficient sequence a (every
+// group element is a multiple of G in a prime-order group -- that existence is NOT axiomatised, hence the premise), then the participant's
+// signing share is a(own id), whoever the peers were, and the public key package is `honest_keys` on a.  All participants that complete on ONE
+// commitment map therefore hold shares of ONE polynomial and the same public key package (thm_same_commitments_same_public_package): the
+// premises of the signing theorems (C01: thm_honest_aggregate_succeeds) and of thm_reconstruct
+//@serves C09 C07 C01
+pub proof fn thm_part3_completed_share_on_committed_polynomial<C: Ciphersuite>(kp: KeyPackage<C>, pk: PublicKeyPackage<C>, s2: R2Sec<C>, r1: R1Map<C>, r2: R2Map<C>, a: Seq<Scalar<C>>)
+    requires part3_completed::<C>(kp, pk, s2, r1, r2), a.len() >= 1,
+        spec_dkg_group_commitment::<C>(spec_part3_commitments::<C>(s2, r1))->Ok_0 == spec_commitment::<C>(a)
+    ensures kp.signing_share.0.0 == poly::<AL<C>>(a, s2.identifier.0.0),
+        crate::vprops_sign::honest_keys::<C>(a, pk.verifying_key.element.0, pk.verifying_shares@, r1.dom().insert(s2.identifier)),
+        pk.min_signers == Some(a.len() as u16),
+{
+    let own = s2.identifier;
+    lemma_part3_own_entry::<C>(kp, pk, s2, r1, r2);
+    lemma_vss_complete::<C>(a, own.0.0, s1::<C>());
+    lemma_one_mul::<AL<C>>(poly::<AL<C>>(a, own.0.0));
+    lemma_gen_inj::<C>(kp.signing_share.0.0, poly::<AL<C>>(a, own.0.0));
+    assert(spec_part3_commitments::<C>(s2, r1).dom() =~= r1.dom().insert(own));
+    lemma_honest_public_package::<C>(pk, r1.dom().insert(own), a);
+}
+
 } // verus!
 }
